@@ -19,6 +19,9 @@ func Creator(ctx context.Context, name string, options map[string]string) (physi
 
 	separator := "\n"
 	if sep, ok := options["sep"]; ok {
+		if sep == "" {
+			return nil, physical.Schema{}, fmt.Errorf("the line separator must not be empty")
+		}
 		separator = sep
 	}
 
